@@ -33,7 +33,7 @@ def do_export(tr, fmt, d, node_ids=None):
     from funtracks.import_export.export_to_geff import export_to_geff
     from funtracks.import_export.internal_format import save_tracks
     if fmt == "csv":
-        if tr.segmentation is not None and node_ids:
+        if tr.segmentation is not None and node_ids is not None:
             export_to_csv(tr, d / "t.csv", node_ids=node_ids, export_seg=True, seg_path=d / "t.tif")
         else:
             export_to_csv(tr, d / "t.csv", node_ids=node_ids)
@@ -184,7 +184,11 @@ def read_subset(cfg, tr, fmt, d, rec):
         if (d / "t.tif").exists():
             import tifffile
             arr = np.asarray(tifffile.imread(d / "t.tif"))
-            if cfg.embed:
+            if isinstance(cfg.embed, dict):
+                sub = core.sub_array(arr, cfg)
+                rec["dangling"] = int(np.count_nonzero(arr)) - int(np.count_nonzero(sub))
+                arr = sub
+            elif cfg.embed:
                 sub = arr[..., cfg.embed[1]]
                 rec["dangling"] = int(np.count_nonzero(arr)) - int(np.count_nonzero(sub))
                 arr = sub
@@ -197,7 +201,11 @@ def read_subset(cfg, tr, fmt, d, rec):
         rec["out_edges"] = [[int(u), int(v)] for u, v in g.edges]
         if tr.segmentation is not None:
             arr = np.asarray(zarr.open(str(d / "g" / "segmentation"), mode="r")[:])
-            if cfg.embed:
+            if isinstance(cfg.embed, dict):
+                sub = core.sub_array(arr, cfg)
+                rec["dangling"] = int(np.count_nonzero(arr)) - int(np.count_nonzero(sub))
+                arr = sub
+            elif cfg.embed:
                 sub = arr[..., cfg.embed[1]]
                 rec["dangling"] = int(np.count_nonzero(arr)) - int(np.count_nonzero(sub))
                 arr = sub
